@@ -157,7 +157,9 @@ pub fn drive(spec: CheckSpec) -> i32 {
     n_viol += 1;
     if !reported.insert(sig.clone()) { continue; }
     if reported.len() > 25 { continue; }
-    let path = spec.replays.join(format!("{}-{}-{}.json", spec.world, spec.seed, sanitize(&sig)));
+    // two signatures may share their first 80 characters: a short digest keeps the files apart
+    let sig_digest = { let mut d = crate::rng::Digest::new(); d.str(&sig); d.finish() & 0xffff };
+    let path = spec.replays.join(format!("{}-{}-{}-{:04x}.json", spec.world, spec.seed, sanitize(&sig), sig_digest));
     let mut replay = v["replay"].clone();
     if let Some(o) = replay.as_object_mut() { o.insert("property".into(), json!(spec.property)); o.insert("signature".into(), json!(sig)); }
     std::fs::write(&path, serde_json::to_string_pretty(&replay).unwrap()).ok();
